@@ -51,6 +51,7 @@ struct IdHandler : public Http::Handler {
     HTTP_PROTOTYPE(IdHandler)
     void onRequest(const Http::Request& req, Http::ResponseWriter response) override {
         { std::lock_guard<std::mutex> g(g_m); g_seen_ids.insert(req.resource()); }
+        if (req.resource().rfind("/hold", 0) == 0) lv::msleep(800);   // keeps this worker away from its event loop for more than one scan period
         response.send(Http::Code::Ok, "seen " + req.resource() + " body " + std::to_string(req.body().size()));
     }
 };
@@ -171,23 +172,23 @@ static void run_c14s(long cases) {
 struct TCase { int kind; double stallAt; };
 static void run_c14t(long cases) {
     Rng r(g_opts.seed * 3011 + (uint64_t)g_opts.shard);
-    struct Setting { int h, b; };
-    std::vector<Setting> settings = {{1, 2}, {2, 1}, {1, 1}, {2, 3}, {2, 2}, {3, 2}, {4, 1}, {1, 4}, {4, 4}};   // the last two: far enough apart for "which of the two time-outs was applied" to be told beyond the slack
+    struct Setting { double h, b; };
+    std::vector<Setting> settings = {{1, 2}, {2, 1}, {1, 1}, {2, 3}, {2, 2}, {3, 2}, {4, 1}, {1, 4}, {4, 4}, {2.8, 3.8}, {3.8, 2.8}};   // (the last two: not a whole number of seconds)   // the last two: far enough apart for "which of the two time-outs was applied" to be told beyond the slack
     long idx = g_opts.shard * 100000L;
     for (long rep = 0; rep < cases; rep++)
     for (size_t si = 0; si < settings.size(); si++) {
         if ((long)(si + (size_t)rep * settings.size()) % g_opts.nshards != g_opts.shard) continue;
-        int H = settings[si].h, B = settings[si].b;
+        double H = settings[si].h, B = settings[si].b;
         int workers = (rep + (long)si) % 2 ? 4 : 1;
         Http::Endpoint ep(Address(Ipv4::loopback(), Port(0)));
-        ep.init(Http::Endpoint::options().threads(workers).flags(Tcp::Options::ReuseAddr).headerTimeout(std::chrono::seconds(H)).bodyTimeout(std::chrono::seconds(B)));
+        ep.init(Http::Endpoint::options().threads(workers).flags(Tcp::Options::ReuseAddr).headerTimeout(std::chrono::milliseconds((long)(H * 1000))).bodyTimeout(std::chrono::milliseconds((long)(B * 1000))));
         ep.setHandler(Http::make_handler<IdHandler>());
         ep.serveThreaded();
         int port = ep.getPort();
         std::vector<std::thread> th;
         std::mutex rm; std::vector<std::pair<std::string, std::string>> results;   // (key or "", witness)
         double minT = std::min(H, B);
-        for (int kind = 0; kind < 11; kind++) {
+        for (int kind = 0; kind < 12; kind++) {
             long myidx = idx++;
             th.emplace_back([&, kind, myidx] {
                 std::string kn; std::string key;
@@ -243,6 +244,10 @@ static void run_c14t(long cases) {
                 case 10: { kn = "slow-head-then-stalled-body";   // the head takes most of its time, then the body stalls: the body time-out still counts from the start of the request
                         c.send_all(head.substr(0, 20)); lv::msleep((int)(minT * 800)); c.send_all(head.substr(20) + body.substr(0, 3));
                         expect408(B, kn); break; }
+                case 11: { kn = "completed-shortly-before-the-time-out";   // the whole request 0.3 s before the smaller time-out expires: timely, whatever the unit of the setting
+                        double want = minT - 0.3; lv::msleep((int)(want * 1000));
+                        if (lv::now() - t0 > want + 0.08) { std::lock_guard<std::mutex> g(rm); results.push_back({"", ""}); return; }   // the sleep overshot (loaded machine): not a case
+                        c.send_all(head + body); expect200(kn); break; }
                 default: kn = "body-after-header-timeout-within-body-timeout";
                         if (B > H) { c.send_all(head); lv::msleep((int)((H + 0.3) * 1000)); if (lv::now() - t0 < B - 0.4) { c.send_all(body); expect200(kn); } }
                         else { c.send_all(head + body); expect200(kn); }
@@ -253,13 +258,31 @@ static void run_c14t(long cases) {
             });
         }
         for (auto& t : th) t.join();
+        // a complete request arrives while the only worker is away for longer than a scan period (but far less than the time-outs): when the
+        // worker returns, the scan tick and the request are reported together; the request has to be read and answered, not timed out
+        if (workers == 1 && minT >= 2) {
+            long myidx = idx++;
+            lv::Conn sl, f; std::string key, bufS, bufF;
+            if (sl.open_to(port) && f.open_to(port)) {
+                double t0 = lv::now();
+                sl.send_all("GET /hold" + std::to_string(myidx) + " HTTP/1.1\r\nHost: x\r\n\r\n"); lv::msleep(150);
+                f.send_all("POST /t" + std::to_string(myidx) + " HTTP/1.1\r\nHost: x\r\nContent-Length: 10\r\n\r\n0123456789");
+                lv::HttpMsg mf = lv::read_response(f, bufF, 0, (int)((minT + 2.0) * 1000 * lv::load_factor()));
+                if (mf.complete && mf.status == 408) key = "c14:timeout:408-on-timely-request:arrived-while-the-worker-was-busy-for-a-scan-period";
+                else if (!mf.complete || mf.status != 200) key = "c14:timeout:timely-request-not-served:arrived-while-the-worker-was-busy-for-a-scan-period";
+                lv::read_response(sl, bufS, 0, 3000);
+                std::string wt = Json().num("i", myidx).str("phase", "c14t").num("header_timeout_s", H).num("body_timeout_s", B).str("case", "arrived-while-the-worker-was-busy-for-a-scan-period").num("workers", workers).num("status", mf.status).num("elapsed_ms", (long long)((lv::now() - t0) * 1000)).done();
+                results.push_back({key, wt}); count("busy_worker_cases");
+            }
+        }
         for (auto& kv : results) {
+            if (kv.second.empty()) { count("timeout_cases_not_judged_sleep_overshot"); continue; }
             g_evals++;
             if (!kv.first.empty()) violation(kv.first, "header time-out " + std::to_string(H) + " s, body time-out " + std::to_string(B) + " s: " + kv.first.substr(12), kv.second);
             count("timeout_cases");
             if (g_samples_left > 0) { g_samples_left--; sample(kv.second); }
         }
-        for (int kind = 0; kind < 11; kind++) g_distinct.add(std::to_string(H) + "|" + std::to_string(B) + "|" + std::to_string(kind) + "|" + std::to_string(workers));
+        for (int kind = 0; kind < 12; kind++) g_distinct.add(std::to_string(H) + "|" + std::to_string(B) + "|" + std::to_string(kind) + "|" + std::to_string(workers));
         ep.shutdown();
     }
 }
